@@ -61,7 +61,11 @@ class Call2Mixin:
       return self.instantiate(f, args, kwargs)
     if isinstance(f, VOpaque):
       if kwargs:
-        raise Unsupported('kwargs to opaque callable')
+        # keyword arguments of an uninterpreted callable: passed as (name, value) pairs in name order
+        extra = []
+        for name in sorted(kwargs):
+          extra.extend([VStr(f'kw:{name}'), kwargs[name]])
+        return self.call_opaque(f, list(args) + extra, {})
       return self.call_opaque(f, args, kwargs)
     if isinstance(f, VObj):
       mod, cls, m = self.world.method(f.cls, '__call__')
